@@ -120,7 +120,7 @@ Proof.
   { unfold shares. rewrite map_map. reflexivity. }
   rewrite Hnodes.
   assert (Hndn : NoDup (map fromN ids)).
-  { apply NoDup_map_inj_rev; auto. intros a b Ha Hb. apply Hinj; now apply Hincl. }
+  { apply NoDup_map_inj_rev; [exact Hnd|]. intros a b Ha Hb. apply Hinj; now apply Hincl. }
   unfold lagrange_basis_at. rewrite (basis_at_NoDup K HK _ 0 Hndn). f_equal.
   change (fold_left _ (combine ?a ?b) 0) with (dot K a b).
   assert (Hvals : map snd shares = map (peval_r K cs) (map fromN ids)).
